@@ -11,21 +11,22 @@ CLAIMED = {
     # id: (design_ref, text, note, technique override or None)
     "C01": ("§C01", "For every listed knowledge set K (all K for n<=4) and both superadditive computers, z3 shows that no superadditive "
             "game and no stale pre-state makes a computed interval miss the true value, invert, or alter a known row. Bounded by n and the K list; "
-            "exact reals.",
+            "exact reals. Plus seeded operation histories on ONE object (reveal / un-reveal / bulk setters / re-initialisation / recompute / copy / reads, harness/histories.py) "
+            "ending in the listed K - state a change keeps outside the value table is only reachable that way.",
             "Trusts: z3, the symx numpy-object-array carrier (validated each run by concrete cross-checks against the unpatched package), C17 for closure of valid states."),
     "C02": ("§C02", "Per listed K and both computers z3 shows, for all superadditive games, that every computed bound equals the definition-level closed form "
             "(best partition into known blocks; min over known supersets) and that explicit superadditive completions built from the outputs attain each bound "
-            "(lower-bound game; per-coalition upper witness). Bounded by n<=5 and the K list.",
+            "(lower-bound game; per-coalition upper witness). Bounded by n<=5 and the K list; closed form also after seeded operation histories on one object.",
             "Trusts: z3, symx carrier (cross-checked per run), harness-side reference terms written from the property text."),
     "C03": ("§C03", "For all real inputs (no class assumption) and independent stale states z3 shows the two computers' result terms equal, per listed K, "
-            "n=2..8, and along call sequences mixing player counts / game objects that start from a pristine interpreter state (forked per task).",
+            "n=2..8, along call sequences mixing player counts / game objects that start from a pristine interpreter state (forked per task), and after seeded operation histories run on one object per computer.",
             "Trusts: z3, symx carrier; equality over the reals (bit-identity follows when sums are exact). Float-rounding equality on inexact inputs is outside."),
     "C08": ("§C08", "Per computer and listed K, z3 shows results are independent of two arbitrary stale pre-states, idempotent, equal along different reveal orders "
-            "with a reveal/un-reveal detour, and that ICG_Gym.step followed by unstep restores table, state, reward, mask, steps and done term-for-term.",
+            "with a reveal/un-reveal detour, that a seeded operation history on one object gives the bounds of a fresh object with the same knowledge, and that ICG_Gym.step followed by unstep restores table, state, reward, mask, steps and done term-for-term.",
             "Trusts: z3, symx carrier, generator stub; sam_apx_100/1000 only under SAM(v) at n=3."),
     "C04": ("§C04", "Direct runs (n=3 all K, r up to 1000; n=4 r<=2; n=5 r=0) decide every clause for all SAM games; an inductive step for the repetition loop "
             "(loop-schedule stub: one more repetition from ANY state with SA-lower<=L<=v) shows the invariant, never-loosening, lower monotonicity and every "
-            "upper-bound clause are preserved - covering all repetition counts for the listed K at n<=5.",
+            "upper-bound clause are preserved - covering all repetition counts for the listed K at n<=5; direct runs also after seeded operation histories on one object.",
             "Trusts: z3, symx carrier, the loop-schedule stub of module-global range in bounds.py (checked to be consumed exactly once), symbolic min/max."),
     "C05": ("§C05", "For each n<=6 (8 thorough) one symbolic run of compute_exploitability / MaxGainGame / Shapley on arbitrary real bound vectors; z3 proves the binomial "
             "identity, the summed-max-gain identity, non-negativity, zero iff degenerate, and Shapley domination for every completion in the box.",
@@ -39,11 +40,12 @@ CLAIMED = {
             "Trusts: z3, symx carrier, np.linalg.norm model, SQ/SQRT as uninterpreted functions with instantiated monotonicity axioms."),
     "C09": ("§C09", "From every listed reachable state (all at n=3) with free stale bounds, one real ICG_Gym.step on a symbolic hidden game of the assumed class: z3 decides "
             "knowledge = minimal ∪ chosen with hidden values, mask, normalised observation, reward = -gap of a fresh game, reward<=0, info, done (budget None / symbolic), "
-            "and reset semantics; environments built directly and through ModelInstance.get_env().",
+            "reset semantics incl. done right after reset (zero budget / degenerate hidden game), a second episode; environments built directly and through ModelInstance.get_env(); n=7 runs in the thorough tier.",
             "Trusts: z3, symx carrier, generator stub indexed by draw counter, norm model / UF for l2."),
     "C15": ("§C15", "Real normalize_game / denormalize_game on a symbolic superadditive value table and on a graph game with symbolic weights, both paths (surplus zero / non-zero): "
-            "singletons 0, values in [0,1], grand 1 or all 0, superadditivity kept, graph == tabulated, round trip; exact reals, n<=4 (5 thorough).",
-            "Trusts: z3, symx carrier (fraction representation keeps the queries linear). Float-rounding behaviour (C15-fp in DESIGN) is NOT decided here."),
+            "singletons 0, values in [0,1], grand 1 or all 0, superadditivity kept, graph == tabulated, round trip, every stage read through every accessor, a second cycle; exact reals, n<=5 (6 thorough); "
+            "one float64 kernel (additive n=3) in QF_FP decided by cvc5.",
+            "Trusts: z3, cvc5 (FP kernel), symx carrier (fraction representation keeps the queries linear). KNOWN FINDING C15/fp64/additive-residue is reported as KNOWN-FINDING; every other obligation stays armed."),
     "C16": ("§C16", "Real ICG_Gym_Linear over a real ICG_Gym on a symbolic hidden game: for every listed knowledge set and every size, with np.random.choice explored over every "
             "candidate, z3 / term identity decide mask, single new known coalition of that size, info, reward/done pass-through and per-size observation sums.",
             "Trusts: z3, symx carrier, np.bincount model, exhaustive-choice stub for np.random.choice."),
@@ -59,22 +61,24 @@ CLAIMED = {
             "Trusts: z3, symx carrier, RNG stub contract, UF axioms for square/exp. Graph distribution families rely on the C15 matrix lemma + documented non-negative support (executed concretely only). "
             "covg / xs6 / oxs are path-budgeted; *_norm_additive with >=3 parts may be reported inconclusive (NRA)."),
     "C11": ("§C11", "Real sample_exploitabilities_of_action_sequences / MetaGame / get_best_exploitability on symbolic superadditive games with a Pool stub: the enumerated sets are exactly all <=k subsets once, "
-            "every reported gap is z3-equal to the gap of a fresh game knowing start ∪ set, for P in {1,2,3,5,16}; best-states minimum and attaining set along every ordering of the running minimum (forked).",
+            "every reported gap is z3-equal to the gap of a fresh game knowing start ∪ set, for P in {1,2,3,5,16}; best-states minimum and attaining set along every ordering of the running minimum (forked), starting knowledge given at construction or reached by stepping the environment.",
             "Trusts: z3, symx carrier, Pool stub (CPython chunking, per-chunk deep copy). Real OS processes are outside."),
     "C12": ("§C12", "Real evaluate/eval_one/ModelInstance/solvers on draw-indexed symbolic games: Part A (P=1) every recorded row equals the gap of a fresh game along the recorded actions of the "
-            "repetition's own draw; Part B: independence of repetitions and equality across worker counts under the Pool stub, plus 'every column is a true trajectory of some draw'.",
+            "repetition's own draw (n=3, 4 and one n=7 run: 119 explorable coalitions); Part B: independence of repetitions and equality across worker counts under the Pool stub, plus 'every column is a true trajectory of some draw'.",
             "Trusts: z3, symx carrier, Pool stub, draw-counter RNG. KNOWN FINDING C12/partB/pool-chunk-rng-replay (see known_findings.txt) is reported as KNOWN-FINDING; every other obligation stays armed."),
     "C13": ("§C13", "At every listed reachable state the real solvers' choice is decided against reference one-step rewards from fresh games: greedy / worst-greedy extremal with lowest-index ties "
-            "(forks over the comparisons), largest, random for every outcome; environment term-identical before/after; expected-greedy extension minimality, no repeats, monotone curve, optimum for one reveal.",
+            "(forks over the comparisons), largest, random for every outcome; environment term-identical before/after; expected-greedy extension minimality, no repeats, monotone curve, optimum for one reveal (n=3; n=4 with three reveals for l1 / l-infinity, guided by concrete valuations first; "
+            "the l2 ranking is undecidable for z3 under the SQ/SQRT abstraction - that task is reported inconclusive and its concrete test games are executed instead, flagged).",
             "Trusts: z3, symx carrier, choice stub, np.argmin model, Pool stub."),
     "C20": ("§C20", "Real save_json executed on an in-memory file-system model with a SYMBOLIC crash index: the engine forks at every file-system operation (process death and KeyboardInterrupt "
-            "semantics), payloads up to > one 8 KiB buffer, histories 0..3; at every crash point the results file is byte-equal to the old or the complete new file, parses, keeps earlier runs. "
+            "semantics), payloads up to > one 8 KiB buffer, histories 0..3; at every crash point the results file is byte-equal to the old or the complete new file, parses, keeps earlier runs; also with the results file being a symbolic link into another directory. "
             "The model is validated each run against the real file system (forked child dying at the same operation).",
             "Trusts: FS model semantics (validated against the real FS each run); the solver's role is confined to the crash variable; power-loss durability outside."),
     "C14": ("§C14", "Constructor + ranking tables executed and checked for the listed (players, limit) grid incl. n=5 (reachability of the set-up; exceptions are violations); "
             "iterations: from every state reached by <=2 concrete loss vectors of a listed set, ONE real regret_min_iteration with free non-negative terminal losses: z3 decides for all loss vectors "
-            "that current / played / average strategies are distributions avoiding revealed coalitions, added regret is orthogonal to the played strategy (plain), plus keeps regret >= 0.",
-            "Trusts: z3, symx carrier. Bounded: no unbounded induction over iterations (fully symbolic pre-state is nonlinear and did not finish); float32 storage and save/load outside."),
+            "that current / played / average strategies are distributions avoiding revealed coalitions, added regret is orthogonal to the played strategy (plain), plus keeps regret >= 0; "
+            "save/load: saved, loaded, both continued by a concrete and a free-loss iteration: all tables z3-equal, files describe the moment of the save, a second save replaces the first.",
+            "Trusts: z3, symx carrier, array-store stub for np.save / np.load (round-trip contract incl. mmap modes; params.json is real). Bounded: no unbounded induction over iterations (fully symbolic pre-state is nonlinear and did not finish); float32 storage and the .npy byte format outside."),
 }
 
 CLAIMED["C19"] = ("§C19 (as built: §10.9)", "Real save / save_json / Output.from_file / get_outputs_from_file (and the solve, greedy and best-states entry points feeding them) run on a real "
